@@ -43,8 +43,11 @@ if new is None:
     raise SystemExit("no well-formed entry found in " + rep)
 p = os.path.join(here, "props_table.py")
 s = open(p).read()
-a, b = block(s, f'_c("{pid}",')
-s = s[:a] + new + s[b:]
+if f'_c("{pid}",' in s:
+    a, b = block(s, f'_c("{pid}",')
+    s = s[:a] + new + s[b:]
+else:       # entry so far given as a literal dict in CLAIMED: a later _c(...) call overrides it
+    s = s.rstrip("\n") + "\n" + new + "\n"
 open(p, "w").write(s)
 subprocess.check_call([sys.executable, os.path.join(here, "gen_manifest.py")])
 print("entry", pid, "replaced;", len(new), "chars")
